@@ -451,7 +451,7 @@ def tolerance(mag: Fr, scalar: str, nops: int, amp: float = 1.0):
     return float(mag) * EPS[scalar] * (8 * nops + 64) * amp + 1e-300
 
 
-def compare(A, expected, scalar, nops, amp=1.0):
+def compare(A, expected, scalar, nops, amp=1.0, extra=0.0):
     """-> list of (i, j, got, want, tol) that disagree."""
     bad = []
     n0 = len(expected)
@@ -462,7 +462,7 @@ def compare(A, expected, scalar, nops, amp=1.0):
             re, im, mag = expected[i][j]
             want = complex(float(re), float(im))
             got = complex(A2[i, j])
-            tol = tolerance(mag, scalar, nops, amp)
+            tol = tolerance(mag, scalar, nops, amp) + extra * float(mag)
             if not (abs(got.real - want.real) <= tol and abs(got.imag - want.imag) <= tol) or math.isnan(got.real):
                 bad.append((i, j, got, want, tol))
     return bad
@@ -476,7 +476,9 @@ def random_data(prog: Program, rnd: random.Random, cx: bool, lo=-3, hi=3):
     ns = prog.nsides
     w = [[[[rnd.randint(lo, hi), rnd.randint(lo, hi) if cx else 0] for _ in range(d)] for _ in range(ns)]
          for d in prog.coef_dims]
-    c = [[[rnd.randint(lo, hi), rnd.randint(lo, hi) if cx else 0] for _ in range(sz)] for sz in prog.const_sizes]
+    nice = [(3, 4), (4, 3), (0, 2), (2, 0), (-3, 4), (1, 0), (0, -1), (-4, -3)]      # |z| rational
+    c = [[(list(rnd.choice(nice)) if cx and rnd.random() < 0.6 else [rnd.randint(lo, hi), rnd.randint(lo, hi) if cx else 0])
+          for _ in range(sz)] for sz in prog.const_sizes]
     return w, c
 
 
@@ -713,7 +715,8 @@ def run_items(chk, items, nworkers=4, module_size=8):
                 rec = {"item": ids[m["item"]], "meas": m, "status": e[0], "case_data": fem["cases"][m["case"] - 1]}
                 if e[0] == "ok":
                     A = np.array([complex(a, b) for a, b in m["A"]])
-                    rec["bad"] = compare(A, e[1], m["scalar"], m["nops"], float(e[2]))
+                    rec["bad"] = compare(A, e[1], m["scalar"], m["nops"], float(e[2]),
+                                         items[ids[m["item"]]].get("extra_tol", 0.0))
                     rec["amp"] = float(e[2])
                     rec["nonzero"] = any(x[0] != 0 or x[1] != 0 for row in e[1] for x in row)
                     rec["expected"] = e[1]
